@@ -3,6 +3,8 @@
 package memberlist
 
 import (
+	"context"
+	"sync"
 	"errors"
 	"sort"
 	"time"
@@ -120,6 +122,14 @@ func vfDetachedKV(left time.Duration, codecs ...codec.Codec) *KV {
 	return m
 }
 
+// vfSeed stores a first value for key the way a first write leaves it (version
+// 1), without going through any internal function whose signature may change.
+func vfSeed(m *KV, key string, v Mergeable, codecID string) {
+	m.storeMu.Lock()
+	m.store[key] = ValueDesc{value: v, Version: 1, CodecID: codecID}
+	m.storeMu.Unlock()
+}
+
 // ---- C06: a queued update is superseded only by an update that contains it ----
 
 func HarnessC06_Invalidates() {
@@ -177,8 +187,7 @@ func HarnessC06_HostileNotify() {
 	rc := &vfRejectCodec{}
 	m := vfDetachedKV(0, rc)
 	// one legitimate value is already stored
-	_, _, _, _, err := m.mergeValueForKey("k", &vfLWW{m: map[string]vfEntry{"a": {ts: 5}}}, true, 0, "c", false, time.Time{})
-	vfAssert(err == nil, "C06 storing a value succeeds")
+	vfSeed(m, "k", &vfLWW{m: map[string]vfEntry{"a": {ts: 5}}}, "c")
 	n0, v0 := vfStoreSnapshot(m)
 	m.NotifyMsg(msg)
 	vfQuiesce() // let the per-key worker (if any) process the update
@@ -194,8 +203,7 @@ func HarnessC06_HostileRemoteState() {
 	data := vfBytes("data", n)
 	rc := &vfRejectCodec{}
 	m := vfDetachedKV(0, rc)
-	_, _, _, _, err := m.mergeValueForKey("k", &vfLWW{m: map[string]vfEntry{"a": {ts: 5}}}, true, 0, "c", false, time.Time{})
-	vfAssert(err == nil, "C06 storing a value succeeds")
+	vfSeed(m, "k", &vfLWW{m: map[string]vfEntry{"a": {ts: 5}}}, "c")
 	n0, v0 := vfStoreSnapshot(m)
 	m.MergeRemoteState(data, false)
 	vfQuiesce()
@@ -213,18 +221,46 @@ func HarnessC04_KVTombstones() {
 	vfSetNow(now)
 	leftS := vfI64("retention_s")
 	vfAssume(vfAnd(leftS >= 1, leftS <= 1<<20))
-	m := vfDetachedKV(time.Duration(leftS)*time.Second, vfLWWCodec{})
+	wc := &vfWireCodec{}
+	nd := vfClusterNodeCfg(2, wc, time.Duration(leftS)*time.Second)
+	m := nd.kv
+	ctx, cancel := context.WithCancel(context.Background())
+	var mu sync.Mutex
+	var watched, prefWatched *vfLWW
+	go m.WatchKey(ctx, "k", wc, func(v interface{}) bool {
+		mu.Lock()
+		watched, _ = v.(*vfLWW)
+		mu.Unlock()
+		return true
+	})
+	go m.WatchPrefix(ctx, "", wc, func(_ string, v interface{}) bool {
+		mu.Lock()
+		prefWatched, _ = v.(*vfLWW)
+		mu.Unlock()
+		return true
+	})
+	vfQuiesce()
 	// local state: one live entry
-	_, _, _, _, err := m.mergeValueForKey("k", &vfLWW{m: map[string]vfEntry{"live": {ts: now - 10}}}, true, 0, "lww", false, time.Time{})
-	vfAssert(err == nil, "C04 storing a value succeeds")
-	// an incoming update carrying a tombstone with an arbitrary age
+	vfSeed(m, "k", &vfLWW{m: map[string]vfEntry{"live": {ts: now - 10}}}, wc.CodecID())
+	// an update carrying a tombstone with an arbitrary age arrives from a peer,
+	// by gossip or inside a full-state exchange
 	tts := vfI64("tomb_ts")
 	vfAssume(vfAnd(tts >= now-(1<<21), tts <= now))
 	in := &vfLWW{m: map[string]vfEntry{"gone": {ts: tts, dead: true}}}
-	change, _, _, _, err := m.mergeValueForKey("k", in, true, 0, "lww", false, time.Time{})
-	vfAssert(err == nil, "C04 merge succeeds")
+	val, err := wc.Encode(in)
+	vfAssert(err == nil, "C04 value encodes")
+	pair := KeyValuePair{Key: "k", Value: val, Codec: wc.CodecID()}
+	ser, err := pair.Marshal()
+	vfAssert(err == nil, "C04 pair serialises")
+	if vfChoice("delivery", 2) == 0 {
+		m.NotifyMsg(ser)
+	} else {
+		n := len(ser)
+		m.MergeRemoteState(append([]byte{byte(n >> 24), byte(n >> 16), byte(n >> 8), byte(n)}, ser...), false)
+	}
+	vfQuiesce()
 	// readers never see tombstones
-	out, _, err := m.get("k", nil)
+	out, err := m.Get("k", wc)
 	vfAssert(err == nil, "C04 get succeeds")
 	view := out.(*vfLWW)
 	for _, e := range view.m {
@@ -232,6 +268,19 @@ func HarnessC04_KVTombstones() {
 	}
 	_, live := view.m["live"]
 	vfAssert(live, "C04 hiding tombstones never hides a live entry")
+	// ... nor do watchers
+	mu.Lock()
+	w1, w2 := watched, prefWatched
+	mu.Unlock()
+	for _, w := range []*vfLWW{w1, w2} {
+		if w != nil {
+			for _, e := range w.m {
+				vfAssert(!e.dead, "C04 tombstones are never visible to watchers")
+			}
+			_, live := w.m["live"]
+			vfAssert(live, "C04 hiding tombstones from watchers never hides a live entry")
+		}
+	}
 	// retention: kept in the store and in the forwarded change iff young enough
 	m.storeMu.Lock()
 	stored := m.store["k"].value.(*vfLWW)
@@ -240,11 +289,26 @@ func HarnessC04_KVTombstones() {
 	young := now-tts <= leftS
 	vfObserve("kept", kept)
 	vfAssert(kept == young, "C04 a tombstone is retained in the store exactly while it is not older than the retention")
+	if young {
+		vfAssert(w1 != nil && w2 != nil, "C04 watchers are told about a change that only adds a tombstone's effect")
+	}
 	fwd := false
-	if change != nil {
-		_, fwd = change.(*vfLWW).m["gone"]
+	for _, msg := range m.GetBroadcasts(0, 1<<20) {
+		var p KeyValuePair
+		vfAssert(p.Unmarshal(msg) == nil, "C04 forwarded message parses")
+		dv, err := wc.Decode(p.Value)
+		vfAssert(err == nil, "C04 forwarded value decodes")
+		if _, has := dv.(*vfLWW).m["gone"]; has {
+			fwd = true
+			vfAssert(dv.(*vfLWW).m["gone"].dead, "C04 a forwarded tombstone is still a tombstone")
+		}
 	}
 	vfAssert(fwd == young, "C04 a retained tombstone is forwarded to peers like any other change")
+	cancel()
+	close(m.shutdown)
+	m.NamedService.StopAsync()
+	_ = m.NamedService.AwaitTerminated(context.Background())
+	vfQuiesce()
 	vfCover("c04-kv-tombstones-done")
 }
 
@@ -255,8 +319,7 @@ func HarnessC07_MemberlistCAS() {
 	m := vfDetachedKV(0, vfLWWCodec{})
 	pre := vfChoice("preexisting", 2) == 1
 	if pre {
-		_, _, _, _, err := m.mergeValueForKey("k", &vfLWW{m: map[string]vfEntry{"p": {ts: 1}}}, true, 0, "lww", false, time.Time{})
-		vfAssert(err == nil, "C07 storing a value succeeds")
+		vfSeed(m, "k", &vfLWW{m: map[string]vfEntry{"p": {ts: 1}}}, "lww")
 	}
 	// start at an arbitrary version (including the wrap boundary of uint)
 	if pre {
@@ -275,6 +338,7 @@ func HarnessC07_MemberlistCAS() {
 	retryFlag := vfChoice("retry_flag", 2) == 1
 	bDone := false
 	sawB := false
+	var retained *vfLWW // the object A's function returned (the caller may keep and reuse it)
 	fA := func(in interface{}) (interface{}, bool, error) {
 		cur := &vfLWW{m: map[string]vfEntry{}}
 		if in != nil {
@@ -301,6 +365,7 @@ func HarnessC07_MemberlistCAS() {
 			return nil, false, vfErrDecode
 		}
 		cur.m["a"] = vfEntry{ts: 60}
+		retained = cur
 		// whether the caller is willing to be retried must not weaken the check
 		return cur, retryFlag, nil
 	}
@@ -343,6 +408,15 @@ func HarnessC07_MemberlistCAS() {
 			vfCover("c07-ml-first-write-race")
 		}
 		_ = sawB
+		// the store owns its value: what the caller later does to the object its
+		// function returned (e.g. inside a later call that declines) changes nothing
+		if retained != nil {
+			retained.m["scribble"] = vfEntry{ts: 99}
+			m.storeMu.Lock()
+			_, leaked := m.store["k"].value.(*vfLWW).m["scribble"]
+			m.storeMu.Unlock()
+			vfAssert(!leaked, "C07 the stored value is not aliased by the object a successful caller returned")
+		}
 		vfCover("c07-ml-success")
 	default:
 		_, hasA := final.m["a"]
